@@ -200,17 +200,11 @@ DelExtra ==
           /\ UNCHANGED <<db, committed, fresh, cfresh, caps, ccaps, poisoned, nbuilds, last, breq>>
 
 \* delete_items_from_trees: every root is walked into one scratch file, which is applied at the end
-RECURSIVE DelAll(_, _, _)
-DelAll(nodes, roots, k) ==
-  IF k > Len(roots) THEN [roots |-> <<>>, put |-> EmptyFn, del |-> {}]
-  ELSE LET d == DeleteFrom(nodes, roots[k], b.upd, b.cap)
-           rest == DelAll(nodes, roots, k + 1)
-       IN [roots |-> <<d.ref[2]>> \o rest.roots, put |-> d.put @@ rest.put, del |-> d.del \cup rest.del]
 DelItems ==
   /\ b.pc = "delitems"
-  /\ LET r == DelAll(Ix.nodes, b.roots, 1)
-     IN /\ SetNodes(Apply(Ix.nodes, r.put, r.del))
-        /\ b' = [b EXCEPT !.roots = SortedSeq(SeqToSet(r.roots)), !.pc = "insert"]
+  /\ LET r == AfterDeleteItems(Ix.nodes, b.roots, b.upd, b.cap)
+     IN /\ SetNodes(r.nodes)
+        /\ b' = [b EXCEPT !.roots = r.roots, !.pc = "insert"]
   /\ UNCHANGED <<committed, fresh, cfresh, caps, ccaps, poisoned, nbuilds, last, breq>>
 
 \* candidate batches: a non-empty prefix (smallest ids first) of at least min(lo, |S|) ids
